@@ -2,6 +2,7 @@ package sim
 
 import (
 	"encoding/binary"
+	"sync"
 	"time"
 
 	"github.com/blinklabs-io/gouroboros/muxer"
@@ -22,6 +23,7 @@ type rawPeer struct {
 	pauseAfter int64
 	nread      int64
 	paused     bool
+	wmu        sync.Mutex
 }
 
 func newRawPeer(c *Conn) *rawPeer {
@@ -64,6 +66,10 @@ func (r *rawPeer) readLoop() {
 
 // send writes one frame.
 func (r *rawPeer) send(proto uint16, response bool, payload []byte) error {
+	// one frame at a time: with a bounded socket buffer a Write proceeds in pieces, and the
+	// keep-alive task must not slip its frame into the middle of another one
+	r.wmu.Lock()
+	defer r.wmu.Unlock()
 	_, err := r.c.Write(encodeFrame(proto, response, payload))
 	return err
 }
